@@ -349,7 +349,7 @@ func (s *sim) streamer(ctx context.Context, desc *grpc.StreamDesc, cc *grpc.Clie
 	s.k.Yield("fake:streamer")
 	s.attempts++
 	n := s.attempts
-	if ctx.Value(ctxKey("caller")) != "value" {
+	if n, ok := grpcgcp.FromMEContext(ctx); ctx.Value(ctxKey("caller")) != "value" || !ok || n != "me-of-the-caller" {
 		s.k.Logf("streamer: caller context value lost")
 		s.createErr = kern.Push(s.createErr, errors.New("ctx-lost"))
 	}
@@ -450,7 +450,7 @@ func (s *sim) run(src *simkit.Source, logOn bool) {
 	src.Segment(0)
 	s.opIdx = -1
 	s.unblock.Note = "stream creation blocked"
-	base := context.WithValue(context.Background(), ctxKey("caller"), "value")
+	base := grpcgcp.NewMEContext(context.WithValue(context.Background(), ctxKey("caller"), "value"), "me-of-the-caller")
 	if s.plan.Chain {
 		// an earlier intercepted unary call; the stream's context derives from the
 		// context that call's invoker saw
@@ -460,7 +460,7 @@ func (s *sim) run(src *simkit.Source, logOn bool) {
 			return
 		}
 		if s.lastCtx != nil {
-			base = context.WithValue(context.WithoutCancel(s.lastCtx), ctxKey("caller"), "value")
+			base = grpcgcp.NewMEContext(context.WithValue(context.WithoutCancel(s.lastCtx), ctxKey("caller"), "value"), "me-of-the-caller")
 			s.res.Count("fault:ctx_derived_from_earlier_call", 1)
 		}
 	}
@@ -659,6 +659,10 @@ func (s *sim) unary(variant int) {
 		s.res.Count("fault:ctx_derived_from_earlier_call", 1)
 	}
 	ctx := context.WithValue(parent, key{}, 42)
+	// values other parts of this library put into a context are the caller's too:
+	// the MultiEndpoint name of a call that goes through a GCPMultiEndpoint
+	ctx = grpcgcp.NewMEContext(ctx, "me-of-the-caller")
+	meLost := false
 	req, reply := &msg{N: 1}, &msg{N: 2}
 	peek := ""
 	wantErr := error(nil)
@@ -692,6 +696,9 @@ func (s *sim) unary(variant int) {
 				got.called++
 				got.method, got.req, got.reply, got.opts, got.cc = method, rq, rp, opts, cc
 				got.val = c.Value(key{})
+				if n, ok := grpcgcp.FromMEContext(c); !ok || n != "me-of-the-caller" {
+					meLost = true
+				}
 				s.lastCtx = c
 				if grpcgcp.VerifPeekSupported {
 					rq, rp, ok := grpcgcp.VerifPeekGCPContext(c)
@@ -727,6 +734,8 @@ func (s *sim) unary(variant int) {
 		s.vio("C12", "unary-not-transparent", "opts", fmt.Sprintf("invoker saw %d options %v, the caller passed %d: %v", len(got.opts), got.opts, nOpts, ownWant[:nOpts]))
 	case got.val != 42:
 		s.vio("C12", "unary-not-transparent", "ctx", "caller's context value not visible to the invoker")
+	case meLost:
+		s.vio("C12", "unary-not-transparent", "ctx-me-name", "the MultiEndpoint name the caller put into the context (NewMEContext) is not visible to the invoker any more")
 	case err != wantErr:
 		s.vio("C12", "unary-not-transparent", "err", fmt.Sprintf("returned %v, invoker returned %v", err, wantErr))
 	}
